@@ -39,6 +39,18 @@ class Module:
         return f"{type(self).__name__}()"
 
 
+from torch import Tensor as _Tensor  # noqa: E402  (torch imports this module last: Tensor is defined by then)
+
+
+class Parameter(_Tensor):
+    """torch.nn.Parameter: a Tensor subclass.  Constructing one is outside the model; a harness turns an existing model leaf into a
+    parameter with `t.__class__ = Parameter` (C20: a FROZEN nn.Parameter among the requested parameters must be refused like any other
+    tensor that does not require grad)."""
+
+    def __new__(cls, *a, **k):
+        raise ShimUnsupported("torch.nn.Parameter construction is not modelled")
+
+
 from torch.nn import functional  # noqa: E402
 
 
